@@ -2,12 +2,12 @@ SPECIFICATION GSpec
 VIEW GView
 CONSTANTS
   Names = {"a", "b"}
-  IntVals <- IV_small
+  IntVals <- IV_thorough
   Specials = {"none"}
-  DispNames = {"", "x"}
+  DispNames = {"x"}
   MaxPieces = 2
   MaxExt = 1
-  MaxDepth = 2
+  MaxDepth = 1
   AsImpl = {}
-  Families = {"look", "conv", "mut", "eqe"}
+  Families = {"arith"}
 CHECK_DEADLOCK FALSE
